@@ -7,7 +7,6 @@ structure Hyps (t : Table) (rs : List Resolved) : Prop where
   wf : WF t
   esm : EsmOnly t
   rs : allResolved t = some rs
-  loc : LocInj t
   nocycle : NoReexportCycle (toSpec t)
   link : ReexportsLink (toSpec t)
 
@@ -82,24 +81,28 @@ theorem chain_extend {t : Table} {cd : List Tracker} {tr : Tracker} {f : File} {
     intro hsd od htd
     exact ⟨(d.src, ni.alias), (od, nid.alias), hreach, hind hsd od htd, .refl _⟩
 
-/-- what `matchImportWithExport` returns for an import `ni`, given the `result` and `ambiguousResults` so far -/
+/-- what `matchImportWithExport` returns for an import `ni`, given the `result` and `ambiguousResults` so far:
+the pending comparison of a Normal result `R0` naming one reachable binding against results naming the others
+(all up to the `nameLoc`, which the comparison ignores) -/
 def Out (t : Table) (ni : NamedImport) (result : MResult) (ambs : List MResult) (R : MResult) : Prop :=
   ((∀ b, ¬ Pointed t ni b) ∧ R = finish result ambs) ∨
-  ∃ b0 rs, Pointed t ni b0 ∧ (∀ r ∈ rs, ∃ b, Pointed t ni b ∧ r = normalOf t b) ∧
-    (∀ b, Pointed t ni b → b = b0 ∨ normalOf t b ∈ rs) ∧ R = finish (normalOf t b0) (ambs ++ rs)
+  ∃ b0 R0 rs, Pointed t ni b0 ∧ noLoc R0 = normalOf t b0 ∧
+    (∀ r ∈ rs, ∃ b, Pointed t ni b ∧ noLoc r = normalOf t b) ∧
+    (∀ b, Pointed t ni b → b = b0 ∨ ∃ r ∈ rs, noLoc r = normalOf t b) ∧ R = finish R0 (ambs ++ rs)
 
 /-- if the import points to exactly one binding, the loop returns the pending comparison against that binding -/
 theorem Out.unique {t : Table} {ni : NamedImport} {result : MResult} {ambs : List MResult} {R : MResult}
     (h : Out t ni result ambs R) {b : ResolvedBinding} (hb : Pointed t ni b) (hu : ∀ b', Pointed t ni b' → b' = b) :
-    R = finish (normalOf t b) ambs := by
-  rcases h with ⟨hnone, _⟩ | ⟨b0, rs, hb0, hrs, _, hR⟩
+    ∃ R0, noLoc R0 = normalOf t b ∧ R = finish R0 ambs := by
+  rcases h with ⟨hnone, _⟩ | ⟨b0, R0, rs, hb0, hR0, hrs, _, hR⟩
   · exact absurd hb (hnone b)
   · have : b0 = b := hu b0 hb0
     subst this
+    refine ⟨R0, hR0, ?_⟩
     rw [hR]
     apply finish_append_eq
     intro r hr
-    obtain ⟨b', hb', rfl⟩ := hrs r hr
-    rw [hu b' hb']
+    obtain ⟨b', hb', hr'⟩ := hrs r hr
+    rw [hr', hR0, hu b' hb']
 
 end EsbuildModel.ExportMatch
